@@ -581,6 +581,30 @@ class Ops:
                 for v in t.values:
                     undo += self.assume(v, truth, env) or []
                 return undo
+            # `a and b` is false although every conjunct but one is known to hold: that one fails (dually for `or`)
+            want = isinstance(t.op, ast.And)
+            open_ = []
+            for v in t.values:
+                known = self.interp.truth(env.lookup(v.id)) if isinstance(v, ast.Name) and env.lookup(v.id) is not None else None
+                if known is None or known != want:
+                    open_.append(v)
+            if len(open_) == 1:
+                return self.assume(open_[0], truth, env)
+            return None
+        if isinstance(t, ast.Name):
+            # `if xs:` on a collection of unknown size: on the False side it is empty
+            e = env
+            while e is not None:
+                if t.id in e.vars:
+                    v = e.vars[t.id]
+                    if not truth and isinstance(v, ListV) and v.items is None:
+                        e.vars[t.id] = ListV(items=(), kind=v.kind)
+                        return [(e.vars, t.id, v)]
+                    if not truth and isinstance(v, SetV) and v.items is None:
+                        e.vars[t.id] = SetV(items=())
+                        return [(e.vars, t.id, v)]
+                    break
+                e = e.parent
             return None
         if isinstance(t, ast.Compare) and len(t.ops) == 1 and isinstance(t.ops[0], (ast.Is, ast.IsNot)):
             l, r = t.left, t.comparators[0]
